@@ -281,3 +281,21 @@ def rule_token_locations(ctx, rule):
             ctx.report(rule, key, "the tokens m1 m2 m3 of %r are located %s, expected each at the position just after its last character: %s — "
                        "every diagnostic of a program laid out like this names another line / column" % (text, got, want), where_of(nx))
     return decided
+
+
+def token_locations_verdict(fb):
+    """the token-location rows above as one verdict: True (every marker of every text where it must be), False (some marker misplaced:
+    -> (False, text, got, want)), None (the lexer cannot be followed on some text)"""
+    import re
+    for label, text in LOCATION_TEXTS:
+        toks = lex(fb, text, max_tokens=30)
+        if toks and toks[-1][0] in ("stuck", "panic", "error"):
+            return None
+        want = []
+        for m in re.finditer(r"m[123]", text):
+            i = m.end() - 1
+            want.append((m.group(0), [1 + text[:i + 1].count("\n"), i + 1 - (text[:i + 1].rfind("\n") + 1) + 1]))
+        got = [(t[1], t[2]) for t in toks if t[0] == "Identifier" and t[1] in ("m1", "m2", "m3")]
+        if got != want:
+            return (False, text, got, want)
+    return True
